@@ -355,7 +355,10 @@ impl Eval {
         context
             .eval_declaration_instantiation(&code_block)
             .inspect_err(|_| {
-                context.vm.pop_frame();
+                // Release the frame together with its `this`/function slots and registers.
+                if let Some(frame) = context.vm.pop_frame() {
+                    context.vm.stack.truncate_to_frame(&frame);
+                }
             })?;
 
         let record = context.run();
